@@ -518,6 +518,18 @@ class ThrottleStreamIO(StreamIO):
         self.append("read", data, start)
         return data
 
+    async def readexactly(self, count):
+        """
+        :py:func:`asyncio.coroutine`
+
+        :py:meth:`aioftp.StreamIO.readexactly` proxy
+        """
+        await self.wait("read")
+        start = _now()
+        data = await super().readexactly(count)
+        self.append("read", data, start)
+        return data
+
     async def readline(self):
         """
         :py:func:`asyncio.coroutine`
